@@ -362,7 +362,13 @@ class Concretiser:
             "nomodule-wxs": '<wxs>var a = 1</wxs>',
             "nois-template": '<template data="{{a:1}}"/>',
         }
-        s = fixed[dx]
+        if ":" in dx and dx.split(":")[0] in fixed and dx.startswith("kids-"):
+            base, form = dx.split(":")
+            kids = {"elem": "<v/>", "text": "t", "binding": "{{a}}", "comment-elem": "<!-- c --><v/>", "comment-text": "<!----> t",
+                    "ws-elem": "\n  <v/>", "comment-comment-elem": "<!--a--><!--b--><v></v>", "elem-comment": "<v/><!-- c -->"}[form]
+            s = fixed[base].replace("<v/>", kids)
+        else:
+            s = fixed[dx]
         if not self.plain and self.rnd.random() < 0.5:
             s = s.replace('" ', '"\n ').replace("/>", " />")
         return s
